@@ -1095,6 +1095,32 @@ def check_cluster(rep, clause):
             key = 's=%s,min_repetitions=%d,min_substring_length=%d' % (json.dumps(''.join(map(chr, s_))), minrep, minlen)
             classify(rep, known, o.qid, key, what, {'inputs': {'s': s_, 'min_repetitions': minrep, 'min_substring_length': minlen, 'clause': clause},
                                                     'observed': got}, bad)
+    if clause == 'thresholds':
+        # units that are shorthand-class tokens: one original character, two code points (length must be counted in characters)
+        for n in ((2, 3, 4) if rep.tier == 'quick' else (2, 3, 4, 5, 6)):
+            o = ob_add(rep, Q.q05r(env.ctx, n, clause, tokens=True))
+            if o.result != 'sat':
+                continue
+            for m in o.verdict.models:
+                digits = {ord('d'): '7', ord('D'): 'x', ord('s'): ' ', ord('S'): 'x', ord('w'): 'x', ord('W'): '-'}
+                toks = [m['g%d' % i] for i in range(n)]
+                minrep, minlen = m['cfg_minimum_repetitions'], m['cfg_minimum_substring_length']
+                # public API: a string whose characters convert to these tokens, with all six conversions decided by the token letters
+                text = [ord(digits.get(t, 'x')) for t in toks]
+                settings = {'repetitions': True, 'min_repetitions': minrep, 'min_substring_length': minlen}
+                for t in set(toks):
+                    settings[{ord('d'): 'digits', ord('D'): 'non_digits', ord('s'): 'spaces', ord('S'): 'non_spaces', ord('w'): 'words', ord('W'): 'non_words'}[t]] = True
+                got = env.eval([{'op': 'build', 'cases': [text], 'settings': settings}])
+                pat = ''.join(map(chr, got[0].get('ok') or []))
+                viol = []
+                for mm in re.finditer(r'(\(\?:(?:[^()]|\\.)*\)|\\.|.)\{(\d+)(?:,(\d+))?\}', pat):
+                    unit, cnt = mm.group(1), int(mm.group(3) or mm.group(2))
+                    ulen = len(re.findall(r'\\.|[^\\()?:]', unit)) if unit.startswith('(') else 1
+                    if not (cnt > minrep and ulen >= minlen):
+                        viol.append('%s{%d}' % (unit, cnt))
+                key = 'tokens=%s,min_repetitions=%d,min_substring_length=%d' % (''.join(chr(t) for t in toks), minrep, minlen)
+                what = 'build(%s, %s) = %s has quantifier(s) %s below the thresholds' % (json.dumps(''.join(map(chr, text))), ','.join(sorted(k for k, v in settings.items() if v is True)), json.dumps(pat), viol)
+                classify(rep, known, o.qid, key, what, {'inputs': {'s': text, 'settings': settings, 'clause': 'tokens'}, 'observed': got}, bool(viol) or 'panic' in got[0])
     # translator validation: concrete strings through the encoding and through the real function
     cases = []
     rnd = random.Random(rep.seed + 5)
@@ -1120,6 +1146,29 @@ def check_c05(rep):
                         'entries by (length, first index), a total order on distinct keys, before using them)',
                         'itertools sorted_by_key / chunk_by / coalesce / tuple_windows and Vec::splice are modelled by their documented behaviour']
     env = check_cluster(rep, 'notation')
+    # printing of {n} / {m,n}: the quantifier must apply to the whole unit
+    known, _ = load_known()
+    deep = rep.tier == 'thorough'
+    for n, ranged in ((1, False), (1, True), (2, False)) + (((2, True),) if deep else ()):
+        o = decide_unit_obligation(rep, Q.q05g, env.ctx, n, ranged, all_counts=deep)
+        if o.result != 'sat':
+            continue
+        cases_ = o.extra.get('count_cases', [(2, 2)])
+        for m in o.verdict.models:
+            unit = [m['c%d' % i] for i in range(n)]
+            mn, mx = cases_[m.get('count_case', 0)] if m.get('count_case', 0) < len(cases_) else cases_[0]
+            esc, surr = bool(m.get('cfg_is_non_ascii_char_escaped')), bool(m.get('cfg_is_astral_code_point_converted_to_surrogate'))
+            tests = [unit * k for k in sorted(set([mn, mx]))] if mn != mx else [unit * mx]
+            settings = {'repetitions': True, 'escape': esc, 'surrogates': esc and surr, 'capture_groups': bool(m.get('cfg_is_capturing_group_enabled'))}
+            got = env.eval([{'op': 'build', 'cases': tests, 'settings': settings}])
+            pat = got[0].get('ok') or []
+            ms = env.eval([{'op': 'regex_find', 'pattern': pat, 'text': t_} for t_ in tests])
+            missed = [t_ for t_, r_ in zip(tests, ms) if not (isinstance(r_.get('ok'), list) and r_['ok'][0] == 0 and r_['ok'][1] == r_['ok'][2])]
+            skip = esc and surr and any(x >= 0x10000 for x in unit)
+            key = 'unit=%s,count=%s,escape=%s' % ('+'.join(u(x) for x in unit), '%d' % mx if mn == mx else '%d..%d' % (mn, mx), str(esc).lower())
+            what = 'build(%s, %s) = %s does not match %s: the quantifier binds to the last character of the unit only' % (
+                [''.join(map(chr, t_)) for t_ in tests], ','.join(k for k, v in settings.items() if v), json.dumps(''.join(map(chr, pat))), [''.join(map(chr, t_)) for t_ in missed])
+            classify(rep, known, o.qid, key, what, {'inputs': {'quantified': tests, 'settings': settings}, 'observed': got}, bool(missed) and not skip or 'panic' in got[0])
     # the second mechanism the property names: merging of adjacent repeat counts while inserting into the trie
     known, _ = load_known()
     run_trie_obligations(rep, env, known, TRIE_SHAPES_QUICK if rep.tier == 'quick' else TRIE_SHAPES_THOROUGH)
@@ -1138,6 +1187,13 @@ def check_c13(rep):
 
 
 def replay_c05(env, rec):
+    if 'quantified' in rec['inputs']:
+        tests, settings = rec['inputs']['quantified'], rec['inputs']['settings']
+        got = env.eval([{'op': 'build', 'cases': tests, 'settings': settings}])
+        pat = got[0].get('ok') or []
+        ms = env.eval([{'op': 'regex_find', 'pattern': pat, 'text': t_} for t_ in tests])
+        missed = [t_ for t_, r_ in zip(tests, ms) if not (isinstance(r_.get('ok'), list) and r_['ok'][0] == 0 and r_['ok'][1] == r_['ok'][2])]
+        return bool(missed), 'build = %s; not matched: %s' % (json.dumps(''.join(map(chr, pat))), missed)
     if 'clusters' in rec['inputs']:
         return replay_c16(env, rec)
     i = rec['inputs']
@@ -1270,7 +1326,7 @@ TRIE_SHAPES_THOROUGH = TRIE_SHAPES_QUICK + [(1, 1, 1), (2, 2, 1), (3, 2)]
 
 
 def check_c16(rep):
-    rep.statement = ('(2) minimisation stage: Dfa::minimize (Hopcroft refinement over sets of states, get_parent_states) and recreate_graph, executed '
+    rep.statement = ('(3) state elimination: Expression::from (Brzozowski elimination over ndarray matrices with union / concatenate simplifications) run on the minimised automaton returns an expression with the same language (2-3 clusters of 1-3 graphemes). (2) minimisation stage: Dfa::minimize (Hopcroft refinement over sets of states, get_parent_states) and recreate_graph, executed '
                      'from MIR, return an automaton with the same language as the trie; with single-symbol edges it is deterministic and no two '
                      'reachable states share a right language (2-3 clusters of 1-3 graphemes; also with counts <= 2 for the language clause). On '
                      'this tree the EMPTY test case is lost (known finding F7: recreate_graph marks a state final only as the target of an edge). '
@@ -1279,7 +1335,7 @@ def check_c16(rep):
                      'return_next_state, find_next_state with its edge-label widening, add_new_state -- executed from MIR over a concrete-shape '
                      'model of petgraph\'s StableGraph) accepts exactly the union of the inserted clusters. On this tree it does NOT: the solver '
                      'returns the complete set of violating input shapes within the bound (known finding F5, edge widening conflates prefixes).')
-    rep.outside = ['state elimination on ndarray (Expression::from) and printing', 'HashSet iteration orders other than insertion order (the real order depends on per-process hash seeds)',
+    rep.outside = ['printing of the expression (format.rs)', 'HashSet iteration orders other than insertion order (the real order depends on per-process hash seeds)',
                    'clusters with multi-code-point graphemes, counts > 3, more clusters than the stated shapes']
     rep.assumptions += ['petgraph StableGraph is modelled with a concrete shape: nodes, edges in insertion order, neighbors() newest edge first, '
                         'update_edge replaces the weight of an existing edge; BTreeSet/HashSet as duplicate-free lists']
@@ -1287,6 +1343,15 @@ def check_c16(rep):
     known, _ = load_known()
     run_trie_obligations(rep, env, known, TRIE_SHAPES_QUICK if rep.tier == 'quick' else TRIE_SHAPES_THOROUGH)
     run_minimiser_obligations(rep, env, known, MIN_SPECS_QUICK if rep.tier == 'quick' else MIN_SPECS_THOROUGH)
+    # (3) state elimination: the expression denotes the language of the automaton it is given
+    for shape in ([(1,), (1, 1), (2, 1), (2, 2)] if rep.tier == 'quick' else [(1,), (1, 1), (2, 1), (2, 2), (2, 2, 1), (3, 2), (3, 3), (2, 2, 2)]):
+        o = ob_add(rep, Q.q16e(env.ctx, shape))
+        if o.result == 'sat':
+            for m in o.verdict.models:
+                cases = [[m['v%d_%d' % (i, j)] for j in range(n)] for i, n in enumerate(shape)]
+                bad, what, obs = replay_minimised(env, cases)
+                classify(rep, known, 'Q16e', 'cases=%s' % canonical_shape([[(c, 1) for c in s_] for s_ in cases]), what,
+                         {'inputs': {'min_cases': cases}, 'observed': obs}, bad)
 
 
 def replay_c16(env, rec):
@@ -1387,6 +1452,86 @@ def replay_c06(env, rec):
     return bad, what
 
 
+# =========================================================================== C01 / C02  (whole pipeline up to the AST)
+def replay_pipeline(env, cases, settings, clause):
+    got = env.eval([{'op': 'build', 'cases': cases, 'settings': settings}])
+    pat = got[0].get('ok')
+    if pat is None:
+        return True, 'build() panics: %s' % str(got[0])[:200], {}
+    alphabet = sorted(set(c for s_ in cases for c in s_)) or [0x61]
+    max_len = max(len(s_) for s_ in cases) + 1
+    lang = env.eval([{'op': 'regex_language', 'pattern': pat, 'alphabet': alphabet, 'max_len': max_len}])[0].get('ok')
+    if not isinstance(lang, list):
+        return True, 'pattern %s does not compile' % json.dumps(''.join(map(chr, pat))), {'pattern': pat}
+    extra = [w for w in lang if w not in cases]
+    missing = [w for w in cases if w not in lang]
+    what = 'build(%s%s) = %s' % ([''.join(map(chr, s_)) for s_ in cases], ', repetitions' if settings.get('repetitions') else '', json.dumps(''.join(map(chr, pat))))
+    if extra:
+        what += ' also matches %s' % [''.join(map(chr, w)) for w in extra[:6]]
+    if missing:
+        what += ' does not match %s' % [''.join(map(chr, w)) for w in missing]
+    bad = bool(missing) if clause == 'sound' else bool(extra or missing)
+    return bad, what, {'pattern': pat, 'extra': extra[:10], 'missing': missing}
+
+
+def run_pipeline_obligations(rep, env, known, specs, clause):
+    for lens, with_empty, repetitions in specs:
+        o = ob_add(rep, Q.q02e(env.ctx, lens, with_empty, clause, repetitions))
+        if o.result != 'sat':
+            continue
+        for m in o.verdict.models:
+            cases = ([[]] if with_empty else []) + [[m['s%d_%d' % (i, j)] for j in range(n)] for i, n in enumerate(lens)]
+            settings = {'repetitions': True} if repetitions else {}
+            bad, what, obs = replay_pipeline(env, cases, settings, clause)
+            names = {}
+            shape_txt = '|'.join(''.join(names.setdefault(c, chr(ord('a') + len(names))) for c in s_) or '""' for s_ in cases)
+            if with_empty and obs.get('missing') == [[]] and not obs.get('extra'):
+                key = 'empty-test-case-lost'
+            else:
+                ev = Q.first_widening([[(c, 1) for c in s_] for s_ in cases]) if not repetitions else None
+                key = 'cases=%s%s' % (shape_txt, ',repetitions' if repetitions else '')
+            classify(rep, known, o.qid.split('[')[0], key, what, {'inputs': {'pipeline': cases, 'settings': settings, 'clause': clause}, 'observed': obs}, bad)
+
+
+def check_c02(rep):
+    rep.statement = ('bounded, up to the AST: for 1-3 test cases of 1-3 letters (every equality pattern) under default settings, RegExp::from -- '
+                     'preprocessing, grapheme clustering, trie construction, Hopcroft minimisation, recreate_graph, Brzozowski elimination with '
+                     'union / concatenate and their simplifications, all executed from MIR -- returns an expression whose language (computed from '
+                     'the returned Expression value) is EXACTLY the set of test cases. With the empty string among the test cases it is not: '
+                     'known finding F7.')
+    rep.outside = ['printing of the expression (format.rs, Display for RegExp) except for literal ASTs (C06 kernel), and the regex crate\'s reading of it',
+                   'code points other than ASCII letters (grapheme clustering is stubbed to one cluster per letter)', 'more or longer test cases than the bound',
+                   'settings other than the default (each covered by its own property)']
+    rep.assumptions += ['petgraph StableGraph / Dfs, ndarray Array1/Array2, HashSet/HashMap/BTreeSet are modelled with concrete shape (insertion-ordered sets, '
+                        'neighbors() newest edge first, Dfs with explicit stack); unicode-segmentation is stubbed for ASCII letters']
+    env = Env(rep)
+    known, _ = load_known()
+    quick = [((1,), False, False), ((1, 1), False, False), ((2, 1), False, False), ((2, 2), False, False), ((1,), True, False)]
+    thorough = quick + [((3, 2), False, False), ((2, 2, 1), False, False), ((3, 3), False, False), ((2, 1), True, False)]
+    run_pipeline_obligations(rep, env, known, quick if rep.tier == 'quick' else thorough, 'exact')
+
+
+def check_c01(rep):
+    rep.statement = ('bounded, up to the AST: for the same family of inputs as C02, with default settings and with conversion of repetitions, the '
+                     'language of the expression RegExp::from returns CONTAINS every test case (soundness). The empty test case is lost (known '
+                     'finding F7). Code-point-level sub-obligations of soundness are decided under C03/C09 (class tokens contain the character), '
+                     'C04 (case conversion), C07 (escaping), C11 (escape text).')
+    rep.outside = ['the printed pattern and its compilation by the regex crate (C06/C07 kernels cover literal patterns and escaping)',
+                   'code points other than ASCII letters; more or longer test cases than the bound', 'all other settings combinations']
+    rep.assumptions += ['same models as C02']
+    env = Env(rep)
+    known, _ = load_known()
+    quick = [((2, 1), False, False), ((2, 2), False, False), ((2,), False, True), ((3,), False, True), ((2, 1), False, True), ((1,), True, False)]
+    thorough = quick + [((3, 2), False, False), ((4,), False, True), ((3, 2), False, True), ((2, 2, 1), False, False)]
+    run_pipeline_obligations(rep, env, known, quick if rep.tier == 'quick' else thorough, 'sound')
+
+
+def replay_c02(env, rec):
+    i = rec['inputs']
+    bad, what, _ = replay_pipeline(env, i['pipeline'], i['settings'], i.get('clause', 'exact'))
+    return bad, what
+
+
 # =========================================================================== C15
 def check_c15(rep):
     rep.statement = ('kernel "per-component rendering": for each of the 18 Component variants and all field values (Booleans, every '
@@ -1474,8 +1619,8 @@ def replay_c15(env, rec):
 
 
 # --------------------------------------------------------------------------- driver
-CHECKS = {'C03': check_c03, 'C04': check_c04, 'C07': check_c07, 'C09': check_c09, 'C10': check_c10, 'C11': check_c11, 'C12': check_c12, 'C15': check_c15, 'C05': check_c05, 'C13': check_c13, 'C16': check_c16, 'C06': check_c06, 'C08': check_c08}
-REPLAYS = {'C03': replay_c03, 'C04': replay_c04, 'C07': replay_c07, 'C09': replay_c09, 'C10': replay_c10, 'C11': replay_c11, 'C12': replay_c12, 'C15': replay_c15, 'C05': replay_c05, 'C13': replay_c05, 'C16': replay_c16, 'C06': replay_c06, 'C08': replay_c06}
+CHECKS = {'C03': check_c03, 'C04': check_c04, 'C07': check_c07, 'C09': check_c09, 'C10': check_c10, 'C11': check_c11, 'C12': check_c12, 'C15': check_c15, 'C05': check_c05, 'C13': check_c13, 'C16': check_c16, 'C06': check_c06, 'C08': check_c08, 'C01': check_c01, 'C02': check_c02}
+REPLAYS = {'C03': replay_c03, 'C04': replay_c04, 'C07': replay_c07, 'C09': replay_c09, 'C10': replay_c10, 'C11': replay_c11, 'C12': replay_c12, 'C15': replay_c15, 'C05': replay_c05, 'C13': replay_c05, 'C16': replay_c16, 'C06': replay_c06, 'C08': replay_c06, 'C01': replay_c02, 'C02': replay_c02}
 
 
 def write_evidence(rep, exit_code):
